@@ -9,6 +9,7 @@ from netCDF4 import Dataset
 
 import romsfiles as rf
 import run_ladim as rl
+import c07_scale
 
 PROP = "C07"
 THEOREM_FILE = "Props/C07.v"
@@ -18,7 +19,10 @@ RULE = ("The real Output (ladim.out_netcdf) driven for every (N, p, numrec) in a
         "particle variables, forward/reversed, several file-name prototypes (also name_04.nc); plus end-to-end runs "
         "through ladim.main.main. Observed: exit status, set of files, numbering, time variables, particle variables, "
         "readability. Non-trivial = N mod p != 0 or several files. The (N,p,numrec) box is enumerated completely "
-        "(this enumerates inputs to the correspondence; the theorem is unbounded).")
+        "(this enumerates inputs to the correspondence; the theorem is unbounded). First in the list, always: a fixed family "
+        "of SCALE cases (c07_scale.py, oracle only): more than 1000 split files, more than 1000 records per file, more than "
+        "1000 steps between records, 70000 particles per record, prototypes whose number outgrows its width, a run of 1001 "
+        "steps through ladim.main.main split one record per file and unsplit; every file and record checked.")
 TRUSTED = ["Coq 8.16.1 kernel + vm_compute", "hand-written cursor machine coq/Model/Output.v tied by this correspondence",
            "netCDF4/HDF5 store what they are given"]
 ASSUMPTIONS = ["duration a whole number of steps and period a multiple of dt (the property's quantifier); "
@@ -48,7 +52,8 @@ def gen_cases(ctx):
         out.append({"k": "main", "N": N, "p": p, "numrec": numrec, "layout": rng.choice(["sparse", "dense"]),
                     "pvars": True, "rev": rng.random() < 0.4, "proto": "o.nc", "rem": 0, "ref": rng.choice([None, -946684800]),
                     "dt": [600, 300, 1200][len(out) % 3]})
-    return out
+    # the scale family comes first, at fixed positions, and does not touch the random stream of the cases above
+    return c07_scale.scale_cases(ctx.quick) + out
 
 
 def observe_files(d, proto, multifile, tstart, rev, DT=DT):
@@ -84,6 +89,8 @@ def observe_files(d, proto, multifile, tstart, rev, DT=DT):
 
 
 def eval_case(desc, ctx):
+    if desc["k"] == "scale":
+        return c07_scale.eval_scale(desc, ctx)
     N, p, numrec, rev = desc["N"], desc["p"], desc["numrec"], desc["rev"]
     # the time step differs from case to case (the same output period in seconds is then another number of steps)
     DT = desc.get("dt", 600)
